@@ -133,7 +133,16 @@ func RunWorker(p *Prop, tier string, seed uint64, start, stride, n int, hashPath
 // (e.g. canaries behind slices handed to the library).
 var BeforeCase, AfterCase func(c *Ctx)
 
+// VerboseCase: one case in eight runs with the library's logger at trace level (output discarded): the process-wide log
+// level is the embedding program's choice, and code inside "if debug logging is on" blocks runs only then.
+func VerboseCase(index int) bool { return (uint32(index)*2654435761>>9)%8 == 0 }
+
 func evalGuarded(p *Prop, c *Ctx, data any) {
+	if VerboseCase(c.Index) {
+		logrus.SetLevel(logrus.TraceLevel)
+		c.Count("cases_with_library_logging_at_trace_level", 1)
+		defer logrus.SetLevel(logrus.PanicLevel)
+	}
 	if BeforeCase != nil {
 		BeforeCase(c)
 	}
